@@ -97,3 +97,92 @@ def run_shim(repo, relpath, do_grad):
     run.jit_calls = jit_calls
     run.closure = clo.node
     return run
+
+
+def run_shim_history(repo, relpath, do_grad):
+    """The function returned by wrap_objective called TWICE with ONE parameter buffer whose content is changed in place
+    between the calls (what a gradient-descent loop `x -= step * grad` does; tensorlib.astensor / .detach() / .numpy()
+    do not copy a buffer of the backend's own dtype).  Returns, per call, the contents the objective / the jitted function
+    were evaluated at and a description of the returned value."""
+    w = repo.func(relpath, "wrap_objective")
+    calls = []
+    cur = {"log": None}
+
+    def buf(content):
+        return Obj("BUF", {"content": list(content)})
+
+    def snap(x):
+        if isinstance(x, Obj) and "content" in x.attrs:
+            return ";".join(str(to_poly(v)) for v in x.attrs["content"])
+        if isinstance(x, Obj):
+            return x.name
+        return str(to_poly(x))
+
+    def objective(args, kw):
+        cur["log"]["objective"].append(snap(args[0]))
+        return Poly.atom("OBJ<" + snap(args[0]) + ">")
+
+    def stitch(args, kw):
+        return Poly.atom("STITCH<" + snap(args[0]) + ">")
+
+    def grad(args, kw):
+        return [Poly.atom(f"GRAD<{snap(args[0])}>")]
+
+    def jitted(name):
+        def f(args, kw):
+            cur["log"]["objective"].append(snap(args[0]))
+            return (Poly.atom(f"{name}<{snap(args[0])}>"), Poly.atom(f"{name}_GRAD<{snap(args[0])}>")) if name.endswith("grad") else Poly.atom(f"{name}<{snap(args[0])}>")
+        return f
+
+    def same_storage(recv, a, k):
+        if isinstance(recv, Obj) and "content" in recv.attrs:
+            return recv
+        from .alg import NotHandled
+        raise NotHandled()
+
+    def new_storage(recv, a, k):
+        if isinstance(recv, Obj) and "content" in recv.attrs:
+            return buf(recv.attrs["content"])
+        from .alg import NotHandled
+        raise NotHandled()
+
+    def equal(a, k):
+        x, y = a[0], a[1]
+        if isinstance(x, Obj) and isinstance(y, Obj) and "content" in x.attrs and "content" in y.attrs:
+            return [str(to_poly(v)) for v in x.attrs["content"]] == [str(to_poly(v)) for v in y.attrs["content"]]
+        return False
+
+    ext = {
+        "astensor": lambda a, k: a[0], "as_tensor": lambda a, k: a[0], "asarray": lambda a, k: a[0],
+        "array": lambda a, k: buf(a[0].attrs["content"]) if isinstance(a[0], Obj) and "content" in a[0].attrs else a[0],
+        ".detach": same_storage, ".numpy": same_storage, ".cpu": same_storage, ".clone": new_storage, ".copy": new_storage,
+        "equal": equal, "array_equal": equal, "allclose": equal,
+        "grad": grad, ".gradient": lambda recv, a, k: Poly.atom(f"GRAD<{snap(a[0])}>"), ".watch": lambda recv, a, k: None, ".backward": lambda recv, a, k: None,
+        "GradientTape": lambda a, k: Obj("tape"),
+        "_jitted_objective_and_grad": jitted("_jitted_objective_and_grad"), "_jitted_objective": jitted("_jitted_objective"),
+    }
+    env = {
+        "objective": PyFunc(objective, "objective"), "data": Obj("data"), "pdf": Obj("pdf"), "stitch_pars": PyFunc(stitch, "stitch_pars"),
+        "do_grad": do_grad,
+        "jit_pieces": {"fixed_values": Obj("FIXED_VALUES"), "fixed_idx": [Poly.const(1)], "variable_idx": [Poly.const(0), Poly.const(2)], "do_stitch": True},
+    }
+    mod_env = {}
+    for name, v in repo.module(relpath).assigns.items():  # module-level containers: state shared by every wrapped objective
+        if isinstance(v, ast.Dict) and not v.keys:
+            mod_env[name] = {}
+        elif isinstance(v, (ast.List,)) and not v.elts:
+            mod_env[name] = []
+    it = Interp({**mod_env, **env}, {}, {}, externals=ext)
+    clo = it.run(A.strip_docstring(w.node.body))
+    if not isinstance(clo, Closure):
+        raise Undecided("wrap_objective does not return a local closure")
+    b = buf([Poly.atom("q0"), Poly.atom("q1")])
+    for content in (None, [Poly.atom("r0"), Poly.atom("r1")]):
+        if content is not None:
+            b.attrs["content"][:] = content  # in place: every alias of the buffer sees the new point
+        cur["log"] = {"objective": []}
+        ret = clo.interp.call_function(clo.node, [b], {})
+        flat = ret if isinstance(ret, (tuple, list)) else [ret]
+        cur["log"]["returned"] = [snap(x) if not isinstance(x, (list, tuple)) else ",".join(snap(y) for y in x) for x in flat]
+        calls.append(cur["log"])
+    return calls
